@@ -1,0 +1,231 @@
+// ------------------------------------------------------------------------
+// Gufo SNMP: Verification seams (compiled only with --cfg gufo_snmp_verif)
+// ------------------------------------------------------------------------
+// This module is never part of a shipped build. With the guard on it lets
+// a deterministic simulator own the three sources of nondeterminism the
+// extension touches: datagram I/O, entropy and uninitialised buffer memory
+// (plus a monotonic clock for the receive deadline).
+// ------------------------------------------------------------------------
+
+use pyo3::exceptions::PyOSError;
+use pyo3::prelude::*;
+use pyo3::types::PyBytes;
+use socket2::Socket;
+use std::collections::VecDeque;
+use std::io;
+use std::mem::MaybeUninit;
+use std::os::fd::AsRawFd;
+use std::sync::Mutex;
+use std::time::Duration;
+
+struct State {
+    transport: Option<PyObject>,
+    rng: u64,
+    forced: VecDeque<u64>,
+    poison: u8,
+    draws: u64,
+}
+
+static STATE: Mutex<State> = Mutex::new(State {
+    transport: None,
+    rng: 0x9E37_79B9_7F4A_7C15,
+    forced: VecDeque::new(),
+    poison: 0xA5,
+    draws: 0,
+});
+
+fn transport(py: Python) -> Option<PyObject> {
+    STATE
+        .lock()
+        .unwrap()
+        .transport
+        .as_ref()
+        .map(|t| t.clone_ref(py))
+}
+
+/// Current poison byte for never-written buffer memory
+pub fn poison() -> u8 {
+    STATE.lock().unwrap().poison
+}
+
+// ------------------------------------------------------------------------
+// Entropy seam: splitmix64 with a force-next queue
+// ------------------------------------------------------------------------
+pub struct VerifRng;
+
+pub fn rng() -> VerifRng {
+    VerifRng
+}
+
+fn next_u64() -> u64 {
+    let mut st = STATE.lock().unwrap();
+    st.draws += 1;
+    if let Some(v) = st.forced.pop_front() {
+        return v;
+    }
+    st.rng = st.rng.wrapping_add(0x9E37_79B9_7F4A_7C15);
+    let mut z = st.rng;
+    z = (z ^ (z >> 30)).wrapping_mul(0xBF58_476D_1CE4_E5B9);
+    z = (z ^ (z >> 27)).wrapping_mul(0x94D0_49BB_1331_11EB);
+    z ^ (z >> 31)
+}
+
+impl rand::RngCore for VerifRng {
+    fn next_u32(&mut self) -> u32 {
+        next_u64() as u32
+    }
+    fn next_u64(&mut self) -> u64 {
+        next_u64()
+    }
+    fn fill_bytes(&mut self, dst: &mut [u8]) {
+        for chunk in dst.chunks_mut(8) {
+            let v = next_u64().to_le_bytes();
+            chunk.copy_from_slice(&v[..chunk.len()]);
+        }
+    }
+}
+
+// ------------------------------------------------------------------------
+// Clock seam: monotonic time as seen by the installed transport
+// ------------------------------------------------------------------------
+#[derive(Clone, Copy)]
+pub enum Instant {
+    Sim(u64),
+    Real(std::time::Instant),
+}
+
+impl Instant {
+    pub fn now() -> Instant {
+        Python::with_gil(|py| match transport(py) {
+            Some(t) => {
+                let ns = t
+                    .call_method0(py, "now_ns")
+                    .and_then(|v| v.extract::<u64>(py))
+                    .unwrap_or(0);
+                Instant::Sim(ns)
+            }
+            None => Instant::Real(std::time::Instant::now()),
+        })
+    }
+    pub fn elapsed(&self) -> Duration {
+        match (self, Instant::now()) {
+            (Instant::Sim(a), Instant::Sim(b)) => Duration::from_nanos(b.saturating_sub(*a)),
+            (Instant::Real(a), _) => a.elapsed(),
+            _ => Duration::ZERO,
+        }
+    }
+}
+
+// ------------------------------------------------------------------------
+// I/O seam: wraps the real socket, which stays the holder of the
+// configuration (timeout, blocking mode) the transport is told about.
+// ------------------------------------------------------------------------
+pub struct SimIo<'a>(pub &'a mut Socket);
+
+fn to_io_error(py: Python, e: PyErr) -> io::Error {
+    if e.is_instance_of::<PyOSError>(py) {
+        if let Ok(errno) = e
+            .value(py)
+            .getattr("errno")
+            .and_then(|x| x.extract::<i32>())
+        {
+            return io::Error::from_raw_os_error(errno);
+        }
+    }
+    io::Error::other(format!("verif transport failure: {}", e))
+}
+
+impl SimIo<'_> {
+    pub fn recv(&mut self, buf: &mut [MaybeUninit<u8>]) -> io::Result<usize> {
+        Python::with_gil(|py| {
+            let Some(t) = transport(py) else {
+                return self.0.recv(buf);
+            };
+            let timeout_ns = self
+                .0
+                .read_timeout()?
+                .map(|d| d.as_nanos() as u64)
+                .unwrap_or(0);
+            let nonblocking = self.0.nonblocking()?;
+            let fd = self.0.as_raw_fd();
+            let r = t
+                .call_method1(py, "recv", (fd, buf.len(), timeout_ns, nonblocking))
+                .map_err(|e| to_io_error(py, e))?;
+            if r.is_none(py) {
+                return Err(io::Error::from(io::ErrorKind::WouldBlock));
+            }
+            let data = r
+                .downcast_bound::<PyBytes>(py)
+                .map_err(|_| io::Error::other("verif transport: bytes expected"))?
+                .as_bytes();
+            // Datagram semantics: excess octets are discarded
+            let n = data.len().min(buf.len());
+            let p = poison();
+            for (i, slot) in buf.iter_mut().enumerate() {
+                slot.write(if i < n { data[i] } else { p });
+            }
+            Ok(n)
+        })
+    }
+    pub fn send(&mut self, data: &[u8]) -> io::Result<usize> {
+        Python::with_gil(|py| {
+            let Some(t) = transport(py) else {
+                return self.0.send(data);
+            };
+            let fd = self.0.as_raw_fd();
+            t.call_method1(py, "send", (fd, PyBytes::new(py, data)))
+                .map_err(|e| to_io_error(py, e))?;
+            Ok(data.len())
+        })
+    }
+}
+
+// ------------------------------------------------------------------------
+// Python-visible control functions
+// ------------------------------------------------------------------------
+
+/// Install (or remove, with None) the transport object
+#[pyfunction]
+#[pyo3(signature = (transport=None))]
+pub fn _verif_install(transport: Option<PyObject>) {
+    let old = {
+        let mut st = STATE.lock().unwrap();
+        std::mem::replace(&mut st.transport, transport)
+    };
+    drop(old);
+}
+
+/// Reseed entropy, drop forced values, empty the buffer pool, set poison
+#[pyfunction]
+pub fn _verif_reset(seed: u64, poison: u8) {
+    {
+        let mut st = STATE.lock().unwrap();
+        st.rng = seed;
+        st.forced.clear();
+        st.poison = poison;
+        st.draws = 0;
+    }
+    crate::buf::get_buffer_pool().verif_clear();
+}
+
+/// Queue values returned by the next entropy draws, in order
+#[pyfunction]
+pub fn _verif_force_random(values: Vec<u64>) {
+    let mut st = STATE.lock().unwrap();
+    st.forced.extend(values);
+}
+
+/// (entropy draws since reset, buffers resting in the pool)
+#[pyfunction]
+pub fn _verif_probe() -> (u64, usize) {
+    let draws = STATE.lock().unwrap().draws;
+    (draws, crate::buf::get_buffer_pool().verif_len())
+}
+
+pub fn register(m: &Bound<'_, PyModule>) -> PyResult<()> {
+    m.add_function(wrap_pyfunction!(_verif_install, m)?)?;
+    m.add_function(wrap_pyfunction!(_verif_reset, m)?)?;
+    m.add_function(wrap_pyfunction!(_verif_force_random, m)?)?;
+    m.add_function(wrap_pyfunction!(_verif_probe, m)?)?;
+    Ok(())
+}
